@@ -216,6 +216,10 @@ pub fn prep_exec(
     env: Option<&[impl AsRef<OsStr>]>,
 ) -> Result<impl FnOnce() -> Result<()>> {
     let cmd = cmd.as_ref().to_owned();
+    if cmd.as_bytes().contains(&0) {
+        // would be silently truncated at the NUL when passed to exec
+        return Err(Error::from_raw_os_error(libc::EINVAL));
+    }
     let argvec = CVec::new(args)?;
     let envvec = if let Some(env) = env {
         Some(CVec::new(env)?)
